@@ -438,8 +438,8 @@ def run_rules(ctx, chk):
         elif nm.startswith('libc::') or '::libc::' in nm:
             if nm.split('::')[-1] not in LIBC_OK:
                 bad = 'libc call other than clock_gettime'
-        elif 'nix::sys::time::' in nm and not any(d in nm for d in DENY if d not in ('libc::', 'nix::')):
-            bad = None      # TimeSpec arithmetic / conversions: pure
+        elif ('nix::sys::time::' in nm or nm.startswith('nix::time::')) and not any(d in nm for d in DENY if d not in ('libc::', 'nix::')):
+            bad = None      # TimeSpec arithmetic / conversions: pure; nix::time::clock_gettime = the libc call
         elif any(d in nm for d in DENY if d not in ('libc::',)):
             bad = 'member of a blocking family'
         elif not nm.startswith(ALLOW_PREFIX):
